@@ -485,7 +485,7 @@ fn run_property(prop: &str, ctx: &mut Ctx) {
             grid.truncate(if th { 1000 } else { 1000 });
             ctx.text_grid("C04.total.public_api", "wrap, fill, fill_inplace, unfill, refill, indent, dedent, wrap_columns, display_width, find_words, split_words, break_words and both algorithms return (no panic, no hang, no overflow error)",
                 A_ADVERSARIAL, l(2, 3), grid.clone(), vec![0, 1, 2, 7, usize::MAX], c04_total);
-            ctx.strings("A4.std_models", "the std behaviour the Verus side-cars assume of their transparent wrappers (lines, split with positions, split_terminator, trim*, find, match_indices, char_indices, classifiers)",
+            ctx.strings("A4.std_models", "the std behaviour the Verus side-cars assume of their transparent wrappers (lines, split with positions, split over a concatenation, split_terminator, trim*, find, match_indices, char_indices, classifiers)",
                 &[" ", "a", "\n", "\r", "-", "é", "\t", "\u{3000}"], l(6, 7), vec![0], vec![""], a4_std_models);
             ctx.strings_random("A4.std_models.random", "same (long random strings, sampled)", false, 30, if th { 1_000_000 } else { 40_000 }, vec![0], vec![""], a4_std_models);
             ctx.text_random("C04.total.public_api.random", "same, long random texts", A_ADVERSARIAL, 30, if th { 2_000_000 } else { 60_000 }, grid, c04_total);
@@ -530,6 +530,9 @@ fn run_property(prop: &str, ctx: &mut Ctx) {
                 o.crlf = true;
             }
             ctx.text_grid("C09.wrap.paragraphs.crlf", "same with the CRLF line ending", &[" ", "a", "\r\n", "\n", "bc", "\t", "\r"], l(5, 6), g, vec![0, 1, 2, 3, 5], props_wrap::c09_paragraphs);
+            // the std facts U11's C09 theorem rests on (split positions; split over a concatenation), on the real str::split
+            ctx.strings("A4.std_models", "the std behaviour the Verus side-cars assume of their transparent wrappers (lines, split with positions, split over a concatenation, split_terminator, trim*, find, match_indices, char_indices, classifiers)",
+                &[" ", "a", "\n", "\r", "-", "é", "\t", "\u{3000}"], l(5, 6), vec![0], vec![""], a4_std_models);
         }
         "C10" => {
             let scope = format!("[{}] every Unicode scalar value (0x110000 code points in blocks of 256, surrogates skipped)", FLAVOR);
